@@ -2,6 +2,7 @@ package cachesim
 
 import (
 	"fmt"
+	"math"
 	"sort"
 	"sync/atomic"
 	"time"
@@ -166,7 +167,11 @@ func (e *Engine) c9Added(key uint64, added bool, nvict int) {
 		if d.nReal > 1 {
 			probe(PrMultiVictim)
 		}
-		used, max, sum, _ := e.api.PolicyState()
+		// the accounting as it was when Add released the policy lock
+		used, max, sum := d.postUsed, d.postMax, d.postSum
+		if !d.captured {
+			e.abort = "admission decision without captured accounting"
+		}
 		if used > max && !d.lowering {
 			e.violate("C03", "over-capacity", fmt.Sprintf("admitting %#x (cost %d) left used=%d above MaxCost=%d", key, d.cost, used, max), 0)
 		}
@@ -344,8 +349,11 @@ func (e *Engine) checkFinalTTL(snap *ristretto.VerifSnap[*Val], now time.Time, p
 	n := int(atomic.LoadInt32(&e.nvals))
 	for i := 0; i < n; i++ {
 		v := e.vals[i]
-		if v == nil || v.Accepted != 1 || v.TTL <= 0 {
+		if v == nil || v.Accepted != 1 || v.TTL <= 0 || v.RetT == 0 {
 			continue
+		}
+		if now.UnixNano() <= satAdd(v.RetT, v.TTL) {
+			continue // a ttl of years has not elapsed
 		}
 		if v.NExit == 0 {
 			e.violate(prop, "expired-never-reclaimed", fmt.Sprintf("value %d (key %d, ttl %v, set at +%v) expired long ago but was never released", v.ID, v.Key, time.Duration(v.TTL), time.Duration(v.InvT-e.startT.UnixNano())), 0)
@@ -562,6 +570,15 @@ func (e *Engine) checkHistory() {
 	if e.plan.Flags.SingleClient && e.plan.Flags.AllFits && e.plan.Flags.Injective {
 		e.checkModel(ops)
 	}
+}
+
+// satAdd adds a non-negative duration to an instant (both in ns) without
+// wrapping around: TTLs go up to math.MaxInt64.
+func satAdd(t, d int64) int64 {
+	if d > 0 && t > math.MaxInt64-d {
+		return math.MaxInt64
+	}
+	return t + d
 }
 
 // guaranteedDistinct: the property promises separation of two different keys
@@ -814,7 +831,7 @@ func (e *Engine) checkC07(ops []*opRec) {
 				continue
 			}
 			e.lateRule(o, v, "Get")
-			if v.TTL > 0 && v.RetT != 0 && o.RetT < v.InvT+v.TTL {
+			if v.TTL > 0 && v.RetT != 0 && o.RetT < satAdd(v.InvT, v.TTL) {
 				probe(PrTTLHit)
 			}
 		case OpIter:
@@ -850,10 +867,10 @@ func (e *Engine) lateRule(o *opRec, v *Val, what string) {
 	if v.TTL == 0 || v.RetT == 0 {
 		return
 	}
-	if o.InvT > v.RetT+v.TTL {
+	if o.InvT > satAdd(v.RetT, v.TTL) {
 		e.violate("C07", "served-after-expiry", fmt.Sprintf("%s invoked at +%v yielded value %d (key %d) whose ttl %v elapsed at the latest at +%v", what,
-			time.Duration(o.InvT-e.startT.UnixNano()), v.ID, v.Key, time.Duration(v.TTL), time.Duration(v.RetT+v.TTL-e.startT.UnixNano())), o.RetSeq)
-	} else if o.RetT >= v.InvT+v.TTL {
+			time.Duration(o.InvT-e.startT.UnixNano()), v.ID, v.Key, time.Duration(v.TTL), time.Duration(satAdd(v.RetT, v.TTL)-e.startT.UnixNano())), o.RetSeq)
+	} else if o.RetT >= satAdd(v.InvT, v.TTL) {
 		probe(PrGetAtExpiry)
 	}
 }
@@ -873,9 +890,9 @@ func (e *Engine) checkC14() {
 			e.violate("C14", "sweep-evicted-no-ttl", fmt.Sprintf("expiry processing evicted value %d (key %d) which was written without a TTL", v.ID, v.Key), v.EvictSeq)
 			continue
 		}
-		if v.EvictT < v.InvT+v.TTL {
+		if v.EvictT < satAdd(v.InvT, v.TTL) {
 			e.violate("C14", "sweep-evicted-early", fmt.Sprintf("expiry processing evicted value %d (key %d) at +%v, before its expiration (not before +%v)", v.ID, v.Key,
-				time.Duration(v.EvictT-e.startT.UnixNano()), time.Duration(v.InvT+v.TTL-e.startT.UnixNano())), v.EvictSeq)
+				time.Duration(v.EvictT-e.startT.UnixNano()), time.Duration(satAdd(v.InvT, v.TTL)-e.startT.UnixNano())), v.EvictSeq)
 		}
 	}
 }
@@ -954,8 +971,8 @@ func (e *Engine) checkModel(ops []*opRec) {
 	sort.Slice(ops, func(i, j int) bool { return ops[i].InvSeq < ops[j].InvSeq })
 	ks := make([]kstate, e.nkeys)
 	closed := false
-	certainlyUnexpired := func(v *Val, t int64) bool { return v.TTL == 0 || t < v.InvT+v.TTL }
-	certainlyExpired := func(v *Val, t int64) bool { return v.TTL > 0 && t > v.RetT+v.TTL }
+	certainlyUnexpired := func(v *Val, t int64) bool { return v.TTL == 0 || t < satAdd(v.InvT, v.TTL) }
+	certainlyExpired := func(v *Val, t int64) bool { return v.TTL > 0 && t > satAdd(v.RetT, v.TTL) }
 	for _, o := range ops {
 		if o.RetSeq == 0 {
 			break
@@ -1092,8 +1109,13 @@ func (e *Engine) checkModel(ops []*opRec) {
 							e.violate("C07", "getttl-no-ttl", fmt.Sprintf("GetTTL(key %d) reported %v for an item written without ttl", o.Key, time.Duration(d)), o.RetSeq)
 						}
 						if v.TTL > 0 {
-							lo := v.InvT + v.TTL - o.RetT
-							hi := v.RetT + v.TTL - o.InvT
+							lo := satAdd(v.InvT, v.TTL) - o.RetT
+							hi := satAdd(v.RetT, v.TTL) - o.InvT
+							if satAdd(v.RetT, v.TTL) == math.MaxInt64 {
+								// the expiration instant is beyond what fits in the oracle's
+								// arithmetic: only the upper bound "no more than the ttl given"
+								lo, hi = 0, v.TTL
+							}
 							if d > v.TTL || d > hi || d < lo {
 								e.violate("C07", "getttl-range", fmt.Sprintf("GetTTL(key %d) reported %v; ttl given %v, consistent range [%v,%v]", o.Key, time.Duration(d), time.Duration(v.TTL), time.Duration(lo), time.Duration(hi)), o.RetSeq)
 							}
@@ -1194,7 +1216,11 @@ func (e *Engine) checkIterDup(ops []*opRec) {
 // capacity and metrics reset (C15). White box only (no public call: those are
 // yield sites in task context).
 func (e *Engine) checkFreshAfterCleanClear(invSeq uint64) {
+	// the snapshot takes and releases locks in task context: those releases
+	// are not preemption points
+	atomic.AddInt32(&core.NoUnlockYield, 1)
 	snap := e.api.Snapshot()
+	atomic.AddInt32(&core.NoUnlockYield, -1)
 	if len(snap.Entries) != 0 || len(snap.KeyCosts) != 0 || snap.Used != 0 {
 		e.violate("C15", "clear-not-empty", fmt.Sprintf("Clear invoked at #%d returned (no other call in flight) leaving %d entries in the map, %d keys charged, used=%d", invSeq, len(snap.Entries), len(snap.KeyCosts), snap.Used), 0)
 	}
